@@ -10,3 +10,4 @@ import SPModel.Api
 import SPModel.Layout
 import SPModel.Sampler
 import SPModel.Compile
+import SPModel.Conform
